@@ -823,6 +823,7 @@ def eig_cases(tier):
                         o += ', sorting_func=stable_order'
                         realgap = False
                     bsrc = {None: 'B = None', 'spd': 'B = pd_matrix(rng, n)', 'hpd': 'B = pd_matrix(rng, n, True)'}[B]
+                    realvec = kind == 'sym' or (kind == 'gen' and B is None)     # real eigenvectors: only the sign convention can switch
                     vca = {'sym': 'sym', 'herm': 'herm'}.get(kind)
                     vcb = {'spd': 'sym', 'hpd': 'herm'}.get(B)
                     yield (('EigenSolve', kind, B, o, n), EIGSRC + D(f"""
@@ -835,7 +836,7 @@ def eig_cases(tier):
                         assert trial < 999
                         ins = [pym.Signal('A', A)] + ([pym.Signal('B', B)] if B is not None else [])
                         m = pym.EigenSolve(ins, [pym.Signal('W'), pym.Signal('Q')]{o})
-                        MODE = 'smooth'; H0 = {5e-4 if kind in ('herm', 'cgen') else 1e-3}; PSTEP = {1e-3 if kind in ('herm', 'cgen') else 3e-3}; POINTS = 2; VCLASS = [{vca!r}] + ([{vcb!r}] if B is not None else [])
+                        MODE = 'smooth'; H0 = {1e-3 if realvec else 5e-4}; PSTEP = {3e-3 if realvec else 1e-3}; POINTS = 2; VCLASS = [{vca!r}] + ([{vcb!r}] if B is not None else [])
                         SEEDS = [['rand', 'rand'], ['rand', None], [None, 'rand'], [None, 'unit'], ['unit', None], ['int', 'int']]
                         """))
     for B in (False, True):
